@@ -41,6 +41,23 @@ fn en_dispatch(sh: Shape) {
         RawEntryMut::Vacant(_) => false,
     };
     assert!(occ2 == present, "[C12] raw_entry_mut().from_key(k) is Occupied exactly when k is present");
+    // the other builder lookups, mutable and immutable
+    let h = hash_u8(1, k);
+    let occ3 = match m.raw_entry_mut().from_key_hashed_nocheck(h, &k) {
+        RawEntryMut::Occupied(_) => true,
+        RawEntryMut::Vacant(_) => false,
+    };
+    let occ4 = match m.raw_entry_mut().from_hash(h, |x| *x == k) {
+        RawEntryMut::Occupied(_) => true,
+        RawEntryMut::Vacant(_) => false,
+    };
+    assert!(occ3 == present && occ4 == present, "[C12] raw_entry_mut().from_key_hashed_nocheck / from_hash is Occupied exactly when k is present");
+    let want = ref_get(&m, &k);
+    let r1 = m.raw_entry().from_key(&k).map(|(kk, vv)| (*kk, *vv));
+    let r2 = m.raw_entry().from_key_hashed_nocheck(h, &k).map(|(kk, vv)| (*kk, *vv));
+    let r3 = m.raw_entry().from_hash(h, |x| *x == k).map(|(kk, vv)| (*kk, *vv));
+    let wantkv = want.map(|v| (k, v));
+    assert!(r1 == wantkv && r2 == wantkv && r3 == wantkv, "[C12] raw_entry() lookup disagrees with the contents");
     kani::cover!(present, "cls: occupied");
     kani::cover!(!present, "cls: vacant");
     kani::cover!(true, "reach: end of harness");
@@ -48,6 +65,8 @@ fn en_dispatch(sh: Shape) {
 }
 harness!(en_dispatch__s8_8g0, en_dispatch, S8_8G0);
 harness!(en_dispatch__u8_3t, en_dispatch, U8_3T);
+harness!(en_dispatch__s8m0_4a, en_dispatch, S8M0_4A);
+harness!(en_dispatch__s8_8g4, en_dispatch, S8_8G4);
 
 /// which occupied-handle method the harness exercises (concrete per harness)
 #[derive(Clone, Copy, PartialEq)]
@@ -151,6 +170,8 @@ harness!(en_occ_insert__s8_8g4, en_occupied, S8_8G4, Occ::Insert);
 harness!(en_occ_remove__s8_8g0, en_occupied, S8_8G0, Occ::Remove);
 harness!(en_occ_remove__s8_8g4, en_occupied, S8_8G4, Occ::Remove);
 harness!(en_occ_remove__s8_4one, en_occupied, S8_4ONE, Occ::Remove);
+harness!(en_occ_remove__s8m0_4a, en_occupied, S8M0_4A, Occ::Remove);
+harness!(en_occ_read__s8m0_4a, en_occupied, S8M0_4A, Occ::Read);
 harness!(en_occ_remove_entry__s8_4a, en_occupied, S8_4A, Occ::RemoveEntry);
 harness!(en_occ_replace_entry__s8_8g0, en_occupied, S8_8G0, Occ::ReplaceEntry);
 harness!(en_occ_replace_key__s8_8g4, en_occupied, S8_8G4, Occ::ReplaceKey);
@@ -211,6 +232,7 @@ harness!(en_vacant_insert__s8_4a, en_vacant_insert, S8_4A);
 harness!(en_vacant_insert__s8_8g4, en_vacant_insert, S8_8G4);
 harness!(en_vacant_insert__s4f_e, en_vacant_insert, S4F_E);
 harness!(en_vacant_insert__s8t_4a, en_vacant_insert, S8T_4A);
+harness!(en_vacant_insert__s8m0_4a, en_vacant_insert, S8M0_4A);
 
 #[derive(Clone, Copy, PartialEq)]
 enum Raw {
@@ -338,6 +360,9 @@ harness!(en_raw_insert__u4f, en_raw, U4F, Raw::Insert);
 harness!(en_raw_insert__s8_8g0, en_raw, S8_8G0, Raw::Insert);
 harness!(en_raw_or_insert__u4f, en_raw, U4F, Raw::OrInsert);
 harness!(en_raw_or_insert__s8_4a, en_raw, S8_4A, Raw::OrInsert);
+harness!(en_raw_or_insert__s8m0_4a, en_raw, S8M0_4A, Raw::OrInsert);
+harness!(en_raw_insert__s8m0_4a, en_raw, S8M0_4A, Raw::Insert);
+harness!(en_raw_occ_misc__s8m0_4a, en_raw, S8M0_4A, Raw::OccMisc);
 harness!(en_raw_or_insert_with__s8_8g4, en_raw, S8_8G4, Raw::OrInsertWith);
 harness!(en_raw_or_insert_with__u8f, en_raw, U8F, Raw::OrInsertWith);
 harness!(en_raw_and_modify__s8_8g0, en_raw, S8_8G0, Raw::AndModify);
